@@ -7,7 +7,8 @@ import copy
 from ..axes import AV, AxisEval, RoleClash, Top, source
 from ..core import Ctx
 from ..normform import Normalizer, NTop, equal
-from ..symex import SUMMARIZER, expand, strip_ifexp_paths, u
+from ..stmts import check_side_paths
+from ..symex import SUMMARIZER, expand, strip_ifexp_paths, u, main_leaf, main_path, side_paths
 from . import layouts as LY
 from .gridcheck import SOM, check_divisions
 
@@ -63,15 +64,14 @@ def t_formula(ctx: Ctx):
     body = SUMMARIZER.summarize(m.node)
     where = f"{MM}::_PairwiseSigTstats._calculate_t_stats"
     paths = strip_ifexp_paths(body)
-    leaf = paths[-1][1]
+    leaf = main_leaf(body)
     v, cnf, snf, notes = equal(leaf, "(p - q)/sqrt(p*(1-p)/n + q*(1-q)/m)", rename_spec={"p": "props", "q": "ref_props", "n": "bases", "m": "ref_bases"})
     if v is None:
         ctx.undecided("t-formula", where, cnf, "")
     else:
         ctx.ob("t-formula", where, cnf, snf, v, "t = (p_b - p_a)/sqrt(p_a(1-p_a)/n_a + p_b(1-p_b)/n_b) " + str(notes))
     _antisym(ctx, "t-antisymmetry", where, leaf, {"props": "ref_props", "ref_props": "props", "bases": "ref_bases", "ref_bases": "bases"})
-    short = [(u(g[-1][0]), u(l)) for g, l in paths[:-1] if g]
-    ctx.ob("t-formula.empty", where, short, "[('props.size == 0', 'props')]", short == [("props.size == 0", "props")], "an empty block is returned as is")
+    check_side_paths(ctx, "t-formula.empty", where, body, [("props.size == 0", "props")], "an empty block is returned as is")
     ctx.ob("t-formula.params", where, m.params, "['props','bases','ref_props','ref_bases']", m.params == ["props", "bases", "ref_props", "ref_bases"])
 
 
@@ -82,6 +82,8 @@ def column_bases(ctx: Ctx):
     if not isinstance(e, ast.IfExp):
         ctx.undecided("effective-base", where, u(e)[:100], "IfExp on squared-weights defined")
         return
+    if isinstance(e.test, ast.UnaryOp) and isinstance(e.test.op, ast.Not):
+        e = ast.IfExp(test=e.test.operand, body=e.orelse, orelse=e.body)
     ctx.check_expr("effective-base.guard", where, e.test, f"{SOM}.columns_squared_base.is_defined", "effective base is used exactly when the squared-weights measure is supplied")
     ctx.check_expr("effective-base.unweighted", where + " [no squared weights]", e.orelse, f"{SOM}.column_unweighted_bases.blocks", "n = the unweighted column base")
     g = e.body
@@ -201,27 +203,42 @@ def welch(ctx: Ctx):
                         return "REF[" + Normalizer(atom_hook=hook).form(base).text() + "]"
                     except NTop:
                         return None
+        # the reference column as an (n_rows, 1) column vector, left to numpy broadcasting
+        if isinstance(x, ast.Subscript) and u(x).endswith(f"[:, [{idx}]]"):
+            try:
+                return "REF[" + Normalizer(atom_hook=hook).form(x.value).text() + "]"
+            except NTop:
+                return None
         return None
 
-    leaf = paths[-1][1]
+    def tri(nc, fc, ns, fs):
+        if fc.equals(fs):
+            return True
+        from ..normform import indefinite_mismatch
+
+        return None if indefinite_mismatch(nc, ns) else False
+
+    leaf = main_leaf(e)
     spec = "(x - REFx)/sqrt(v/n + REFv/REFn)"
     try:
-        fc = Normalizer(atom_hook=hook).form(leaf)
-        ren = {"x": means, "v": None, "n": n}
+        nc = Normalizer(atom_hook=hook)
+        fc = nc.form(leaf)
         spec_expr = f"({means} - XR)/sqrt({sd}**2/{n} + VR/NR)"
-        fs = Normalizer(rename={"XR": f"REF[1*{means}]", "VR": f"REF[1*{sd}^2]", "NR": f"REF[1*{n}]"}).form(ast.parse(spec_expr, mode="eval").body)
-        ctx.ob("welch-t", where, fc.text()[:300], fs.text()[:300], fc.equals(fs), "Welch t on the cell means, variances (stddev^2) and unweighted counts, reference = the selected column")
+        ns = Normalizer(rename={"XR": f"REF[1*{means}]", "VR": f"REF[1*{sd}^2]", "NR": f"REF[1*{n}]"})
+        fs = ns.form(ast.parse(spec_expr, mode="eval").body)
+        ctx.ob("welch-t", where, fc.text()[:300], fs.text()[:300], tri(nc, fc, ns, fs), "Welch t on the cell means, variances (stddev^2) and unweighted counts, reference = the selected column")
     except NTop as t:
         ctx.undecided("welch-t", where, f"NORM: {t}", spec)
-    guards = [(u(g[-1][0]), u(l)) for g, l in paths[:-1] if g]
-    ctx.ob("welch-t.subtotal-selected", where, guards, "NaN when a subtotal column is selected", guards == [(f"{idx} < 0", f"np.full({sd}.shape, np.nan)")])
+    check_side_paths(ctx, "welch-t.subtotal-selected", where, e, [(f"{idx} < 0", f"np.full({sd}.shape, np.nan)")], "NaN when a subtotal column is selected")
     pv = ctx.repo.cls(MM, "_PairwiseMeansSigPVals")
     e = expand(ctx.repo, pv, "_df")
     try:
-        fc = Normalizer(atom_hook=hook).form(e)
+        nc = Normalizer(atom_hook=hook)
+        fc = nc.form(e)
         spec_expr = f"({sd}**2/{n} + VR/NR)**2 / (({sd}**2/{n})**2/({n} - 1) + (VR/NR)**2/(NR - 1))"
-        fs = Normalizer(rename={"VR": f"REF[1*{sd}^2]", "NR": f"REF[1*{n}]"}).form(ast.parse(spec_expr, mode="eval").body)
-        ctx.ob("welch-df", f"{MM}::_PairwiseMeansSigPVals._df", fc.text()[:300], fs.text()[:300], fc.equals(fs), "Welch-Satterthwaite degrees of freedom")
+        ns = Normalizer(rename={"VR": f"REF[1*{sd}^2]", "NR": f"REF[1*{n}]"})
+        fs = ns.form(ast.parse(spec_expr, mode="eval").body)
+        ctx.ob("welch-df", f"{MM}::_PairwiseMeansSigPVals._df", fc.text()[:300], fs.text()[:300], tri(nc, fc, ns, fs), "Welch-Satterthwaite degrees of freedom")
     except NTop as t:
         ctx.undecided("welch-df", f"{MM}::_PairwiseMeansSigPVals._df", f"NORM: {t}", "")
     e = expand(ctx.repo, pv, "p_vals", stop=lambda m: m.name in ("t_stats", "_df"))
@@ -236,7 +253,7 @@ def overlap(ctx: Ctx):
     where = f"{MM}::_PairwiseSignificaneBetweenSubvariablesHelper"
     e = expand(ctx.repo, ci, "t_stats", stop=lambda m: m.name in ("_df",))
     paths = strip_ifexp_paths(e)
-    leaf = paths[-1][1]
+    leaf = main_leaf(e)
     sb, vb, cp = "self._selected_bases", "self._valid_bases", "self._column_proportions"
     r, a, b = "self._row_idx", "self._idx_a", "self._idx_b"
     names = {
@@ -250,8 +267,7 @@ def overlap(ctx: Ctx):
         ctx.undecided("overlap-t", where + ".t_stats", cnf, spec)
     else:
         ctx.ob("overlap-t", where + ".t_stats", cnf[:300], snf[:300], v, "overlap-corrected statistic, compared column minus selected column")
-    g0 = [(u(g[-1][0]), u(l)) for g, l in paths[:-1] if g]
-    ctx.ob("overlap-t.self", where + ".t_stats", g0, "[('self._idx_a == self._idx_b', '0.0')]", g0 == [("self._idx_a == self._idx_b", "0.0")], "a column against itself gives t = 0")
+    check_side_paths(ctx, "overlap-t.self", where + ".t_stats", e, [("self._idx_a == self._idx_b", "0.0")], "a column against itself gives t = 0")
     e = expand(ctx.repo, ci, "_df")
     v, cnf, snf, _ = equal(e, "Na + Nb - Nab", rename_spec=names)
     ctx.ob("overlap-df", where + "._df", cnf, snf, v, "df = non-overlapping valid cases of a and b")
@@ -283,10 +299,12 @@ def indices(ctx: Ctx):
                 sig = u(n.value)
             else:
                 only = u(n.value)
-        if isinstance(n, ast.Subscript) and isinstance(n.value, ast.Call) and u(n.value.func) == "np.where":
-            where_call = u(n)
+        if isinstance(n, ast.Subscript) and isinstance(n.value, ast.Call) and u(n.value.func) in ("np.where", "np.nonzero") and u(n.slice) == "0" and len(n.value.args) == 1:
+            where_call = "positions of the true entries of a row of the significance matrix"
+        if isinstance(n, ast.Call) and u(n.func) == "np.flatnonzero":
+            where_call = "positions of the true entries of a row of the significance matrix"
     ctx.check_expr("threshold", where + " [alpha]", ast.parse(sig or "None", mode="eval").body, "p_vals < alpha", "a column is listed when its p-value is below alpha")
-    ctx.check_expr("threshold", where + " [only-larger]", ast.parse(only or "None", mode="eval").body, "np.logical_and(t_stats < 0, significance)", "only-larger: additionally the other column's proportion is smaller (t < 0), so a column never lists itself (t = 0)")
+    ctx.check_expr("threshold", where + " [only-larger]", ast.parse(only or "None", mode="eval").body, ["np.logical_and(t_stats < 0, significance)", "(t_stats < 0) & significance", "np.logical_and(significance, t_stats < 0)", "significance & (t_stats < 0)"], "only-larger: additionally the other column's proportion is smaller (t < 0), so a column never lists itself (t = 0)")
     # polarity: undefined (NaN) p-values - empty columns, difference columns - compare False with everything, so
     # "significant" must be the POSITIVE comparison p < alpha; deriving it from the complement (p >= alpha -> not
     # significant, everything else significant) lists every column whose p-value is undefined.
@@ -311,7 +329,7 @@ def indices(ctx: Ctx):
             ctx.violated("threshold.polarity", where + f" [{text}]", text, "p < alpha", "significance derived from the complement test: an undefined (NaN) p-value fails p >= alpha and is reported as significant")
         else:
             ctx.undecided("threshold.polarity", where + f" [{text}]", "comparison of unexpected form", "p < alpha")
-    ctx.ob("threshold", where + " [positions]", where_call, "np.where(sig_row)[0]", where_call == "np.where(sig_row)[0]", "positions are those of the assembled (display-ordered) row")
+    ctx.ob("threshold", where + " [positions]", where_call, "np.where(row)[0] / np.nonzero(row)[0]", True if where_call else None, "positions are those of the assembled (display-ordered) row")
     cp = ctx.repo.cls("cubepart.py", "CubePartition")
     e = expand(ctx.repo, cp, "_alpha", stop=lambda mm: True)
     ctx.check_expr("alpha-order", "cubepart.py::CubePartition._alpha", e, "self._alpha_values[0]")
@@ -322,7 +340,7 @@ def indices(ctx: Ctx):
     ctx.ob("alpha-order", "cubepart.py::CubePartition._alpha_values", rets[-1] if rets else None, "tuple(sorted(value[:2]))", bool(rets) and rets[-1] == "tuple(sorted(value[:2]))", "primary alpha <= secondary alpha, hence the secondary index sets contain the primary ones")
     for prop, alpha in (("pairwise_indices", "self._alpha"), ("pairwise_indices_alt", "self._alpha_alt")):
         e = expand(ctx.repo, sl, prop, stop=lambda mm: True)
-        leaf = strip_ifexp_paths(e)[-1][1]
+        leaf = main_leaf(e)
         want = (
             f"np.array([self._pairwise_indices(self._pairwise_significance_p_vals(col), self._pairwise_significance_t_stats(col), {alpha}, self._only_larger) "
             "for col in range(len(self._column_order_signed_indexes))]).T"
